@@ -185,7 +185,14 @@ func (o *Object) Evaluate(datum interface{}) (out Outcome) {
 }
 
 // Execute runs fl.Execute(data).
-func (o *Object) Execute(data interface{}) (out Outcome) {
+func (o *Object) Execute(data interface{}) Outcome {
+	out, _ := o.ExecuteRaw(data)
+	return out
+}
+
+// ExecuteRaw also hands back the value the filter returned, so that the caller
+// can look at it again later (a returned value must stay what it was).
+func (o *Object) ExecuteRaw(data interface{}) (out Outcome, raw interface{}) {
 	out.Op = "exec"
 	if o.Spec.Kind != "filter" || (o.Fl == nil && (o.Err != "" || o.Pan != "")) {
 		out.Skip = true
@@ -194,9 +201,11 @@ func (o *Object) Execute(data interface{}) (out Outcome) {
 	defer func() {
 		if r := recover(); r != nil {
 			out = Outcome{Op: "exec", Panic: normErr(fmt.Sprint(r))}
+			raw = nil
 		}
 	}()
 	res, err := o.Fl.Execute(data)
+	raw = res
 	if err != nil {
 		out.HasErr = true
 		out.Err = normErr(err.Error())
